@@ -635,10 +635,13 @@ pub fn run(args: &[String]) -> i32 {
                     nrec += 1;
                     res["rec"] = json!(nrec);
                     let _ = writeln!(f, "{{\"i\":{nrec},{rec}");
+                    // a later request may kill the process (stack overflow): what was written must be whole
+                    let _ = f.flush();
                 } else {
                     res["rec"] = json!(-1);
                 }
                 let _ = writeln!(out, "{res}");
+                let _ = out.flush();
             }
             Err(_) => {
                 // still running after the budget: report, abandon that thread, carry on with a fresh one
